@@ -324,6 +324,12 @@ func (k *Kit) payloadFor(r *rand.Rand, target common.Address) []byte {
 	case k.C.Reverter:
 		return word(s())
 	case k.C.Prober:
+		if r.Intn(3) > 0 {
+			// a library contract that is most likely not executed in the same block: its code is touched
+			// through EXTCODESIZE / EXTCODEHASH only
+			lib := []common.Address{k.C.Burner, k.C.BlockHash2, k.C.Looper, k.C.Factory2, k.C.Delegator, k.C.Reverter, k.C.BlockHash, k.C.Copier}
+			return addrWord(lib[r.Intn(len(lib))])
+		}
 		return addrWord(k.anyAddr(r))
 	}
 	return nil
@@ -402,12 +408,12 @@ func (k *Kit) RandTx(r *rand.Rand) TxSpec {
 		sp.Kind = "revert"
 		to(k.C.Reverter)
 		sp.Data = k.payloadFor(r, k.C.Reverter)
-	case c < 79:
+	case c < 77:
 		sp.Kind = "factory"
 		to(k.C.Factory)
 		sp.Data = k.randInit(r)
 		sp.Value = big.NewInt(int64(r.Intn(2)) * 11)
-	case c < 83:
+	case c < 80:
 		sp.Kind = "factory2"
 		to(k.C.Factory2)
 		sp.Data = cat(word(uint64(r.Intn(2))), k.randInit(r))
